@@ -125,7 +125,8 @@ def _case(ch):
         if same and ch.bool():
             let_from[str(i)] = ch.pick(same)
     usep = ch.sample(Q_PULSES, ch.int(1, 2)) if ch.int(0, 3) == 0 else []
-    return {"lets": lets, "reg": [rname, rsize], "body": body, "oo_seed": ch.int(0, 10**6), "usepulses": usep, "let_from": let_from}
+    native = ch.int(0, 3) == 0 and not usep
+    return {"lets": lets, "reg": [rname, rsize], "body": body, "oo_seed": ch.int(0, 10**6), "usepulses": usep, "let_from": let_from, "native": native}
 
 
 # ------------------------------------------------------------------------------ reference wrap rule
@@ -149,6 +150,21 @@ def starts_with_prepare(stmts):
 
 
 # ------------------------------------------------------------------------------ the four front ends
+
+
+def _natives(case):
+    """With case['native']: a native gate set handed to every front end the same way - every
+    gate the program calls, with its arity and untyped parameters, plus prepare_all/measure_all."""
+    if not case.get("native"):
+        return None
+    from jaqalpaq.core import GateDefinition, Parameter, ParamType
+    from jaqalpaq.core.gatedef import BusyGateDefinition
+
+    nat = {"prepare_all": BusyGateDefinition("prepare_all"), "measure_all": BusyGateDefinition("measure_all")}
+    for s_ in walk(case["body"]):
+        if s_[0] == "g" and s_[1] not in nat:
+            nat[s_[1]] = GateDefinition(s_[1], [Parameter("p%d" % i, ParamType.NONE) for i in range(len(s_[2]))])
+    return nat
 
 
 def build_q(case):
@@ -210,6 +226,9 @@ def build_q(case):
 
         run(body)
 
+    nat = _natives(case)
+    if nat is not None:
+        return qcircuit(inject_pulses=nat)(program)()
     return qcircuit(program)()
 
 
@@ -247,12 +266,12 @@ def named_prog(case, let_names, reg_name, wrap):
     return p
 
 
-def build_oo(prog, seed):
+def build_oo(prog, seed, natives=None):
     """Replay the program through CircuitBuilder / BlockBuilder method calls."""
     from jaqalpaq.core.circuitbuilder import CircuitBuilder, SequentialBlockBuilder
 
     ch = gen.Chooser(seed)
-    cb = CircuitBuilder()
+    cb = CircuitBuilder(native_gates=natives)
     consts = {}
     for m in prog["usepulses"]:
         cb.usepulses(m)
@@ -331,13 +350,15 @@ def check(case):
     wrap = not starts_with_prepare(case["body"])
     prog = named_prog(case, let_names, reg_name, wrap)
     text = render.to_text(prog)
-    st_, ct = guard(parse, text, what="parse")
+    nat = _natives(case)
+    kw = {} if nat is None else {"inject_pulses": nat}
+    st_, ct = guard(parse, text, what="parse", **kw)
     if st_ == "err":
         raise Violation("text-rejected", f"{ct}\n--- program:\n{text}")
-    st_, cs = guard(build, render.to_sexpr(prog), what="build(sexpr)")
+    st_, cs = guard(build, render.to_sexpr(prog), what="build(sexpr)", **kw)
     if st_ == "err":
         raise Violation("sexpr-rejected", f"{cs}\n--- program:\n{text}")
-    st_, co = guard(build_oo, prog, case["oo_seed"], what="CircuitBuilder")
+    st_, co = guard(build_oo, prog, case["oo_seed"], nat, what="CircuitBuilder")
     if st_ == "err":
         raise Violation("builder-api-rejected", f"{co}\n--- program:\n{text}")
     circs = {"text": ct, "sexpr": cs, "builder-api": co, "qsyntax": cq}
@@ -358,6 +379,7 @@ def check(case):
     has_sub_or_letcount = any(s[0] == "sub" or (s[0] in ("loop", "sub") and isinstance(s[1], str)) for s in walk(case["body"]))
     autoform = any(n.startswith("__") for n in user_names) and bool(anon)
     classes = ["wrap:%s" % wrap, "anon:%d" % len(anon)] + (["user-name-of-auto-form"] if any(n.startswith("__") for n in user_names) else [])
+    classes += ["native-gate-set"] if nat is not None else []
     classes += ["usepulses:%d" % len(case.get("usepulses") or [])] + (["let-from-constant"] if case.get("let_from") else [])
     return {"nontrivial": (d >= 2 and has_sub_or_letcount) or autoform, "classes": classes, "key": repr(case), "sample": {"text": text, "auto_names": anon, "wrapped": wrap}}
 
